@@ -36,6 +36,15 @@ func main() {
 		replay(r, cap)
 		return
 	}
+	platlat.Equiv = func(a, b platlat.Outcome) bool {
+		if a.Status != b.Status {
+			return false
+		}
+		if a.Status == "fail" || a.Status == "hang" {
+			return platlat.C01Signature(a) == platlat.C01Signature(b)
+		}
+		return true
+	}
 	m := platlat.LoadMatrix()
 	cases, lst := m.C01Cases(r.Thorough())
 
